@@ -95,12 +95,12 @@ def e2e_replay(rep, bfile, orders, props, what, chunk=500, procs=8):
 
 def e2e_explore(rep, seeds, polls, orders, props, what):
     with ThreadPoolExecutor(max_workers=8) as ex:
-        parts = list(ex.map(lambda s: ejson(["explore", "--seed", str(s), "--polls", str(polls), "--poller", orders["poller"], "--client", orders["client"]]), seeds))
+        parts = list(ex.map(lambda s: ejson(["explore", "--seed", str(s), "--polls", str(polls), "--poller", orders["poller"], "--client", orders["client"], "--stop-on", ",".join(sorted(props))]), seeds))
     tot = {"asks": 0, "trusted_intervals": 0, "restarts": 0, "outages": 0, "negative_offsets": 0}
     for s, part in zip(seeds, parts):
         for k in tot:
             tot[k] += part[k]
-        for v in part["violations"][:3]:
+        for v in [v for v in part["violations"] if v["property"] in props][:3]:
             if v["property"] in props:
                 rep.violation(v["signature"], f"{what} (seed {s}): {v['what']}", {"kind": "e2e-explore", "seed": s, "case": v})
         for x in part["samples"][:1]:
